@@ -784,7 +784,7 @@ def run_shard(ctx, shard, nshards, tier, t_end, replay_cases=None):
                 w = fresh()
                 for k, case in enumerate(first):
                     r = run_one(w, case)
-                    if r != tr1[k]:
+                    if r[1] != tr1[k][1]:       # the normalised transcript (see run_stream), not the outcome class with its ':after-timeout' marker
                         raise HarnessError('nondeterminism: case %s gave different transcripts on two instances:\n%r\n%r' % (describe(case), tr1[k], r))
                 res['determinism_cases'] = len(first)
                 w = fresh()
